@@ -304,6 +304,30 @@ func runC37b(env *kernel.Env) {
 	if env.Failed() {
 		return
 	}
+	// visitors that never become sessions: one leaves after the greeting, one sends its
+	// handshake response and leaves, one is refused (no such account); the server has to
+	// forget them like everybody else
+	if nv := T.Draw(4); nv > 0 {
+		visitor := mk("visitor", 0)
+		for i := 0; i < nv; i++ {
+			stop := []int{1, 2, 0}[T.Draw(3)]
+			env.Kind(fmt.Sprintf("visitor:%d", stop))
+			env.Fault("unauthenticated-visitor")
+			visitor.Start(func() {
+				c, err := w.Net.Dial()
+				if err != nil {
+					return
+				}
+				rawLogin(c, "nosuchuser", "x", "", 0, stop, false)
+			}, nil)
+			w.Settle(base, 10*time.Second)
+		}
+		defer func() {
+			if visitor.Task.Idle() {
+				visitor.Task.Close()
+			}
+		}()
+	}
 	for _, c := range all {
 		if !c.Busy && c.Conn != nil {
 			c.Start(c.CloseOp(), nil)
